@@ -106,10 +106,11 @@ class Case:
 
     @staticmethod
     def from_json(o):
-        c = Case(o["name"], o.get("cat", "corpus"), o["nf"], o.get("sizes") or [128] * o["nf"],
+        c = Case(o["name"], o.get("cat", "corpus").replace("corpus-", ""), o["nf"], o.get("sizes") or [128] * o["nf"],
                  [[tuple(r) for r in t] for t in o["tasks"]], o.get("max_stack", 1024))
         if o.get("wf"):
             c.forests = [forest_of(t) for t in c.tasks]
+            c.cat = "open" if any(n[2] is None for f in c.forests for n in walk_nodes(f)) else "wf"
         return c
 
     def fname(self, fid):
@@ -153,6 +154,12 @@ def forest_of(recs):
         elif typ == 1:
             stack.pop()[2] = time
     return roots
+
+
+def walk_nodes(roots):
+    for n in roots:
+        yield n
+        yield from walk_nodes(n[3])
 
 
 STEPS = [0, 0, 0, 1, 1, 2, 3, 5, 8, 13, 21, 34]
@@ -490,6 +497,10 @@ def options_for(rng, case, ci, ncases, tier):
         if rng.random() < 0.85:
             o["sort"] = rand_sort(rng, o)
         opts.append(o)
+    # finding F-C08-DUP: the same sort key twice (own, short timeout: the unrepaired code may not return)
+    if case.name == "dupkeys":
+        for sp in DUPSPECS:
+            opts.append({"fields": "all", "sort": sp, "dup": True})
     # diff against another directory
     other = (ci + 1 + rng.randrange(max(1, ncases - 1))) % ncases
     for _ in range(2 if tier == "quick" else 4):
@@ -517,6 +528,11 @@ def abs_tie(drows, opt):
         if any(d != 0 and -d in ds for d in ds):
             return True
     return False
+
+
+DUPSPECS = ["total,total", "total,self,total", "total,total,self", "call,call,func", "self,call,self,func",
+            "func,func,total", "size,call,size"]
+FINDING_DUP = "F-C08-DUP"
 
 
 def kind_of(opt):
@@ -564,6 +580,9 @@ def run(ctx):
 
     rng = ctx.rng
     quick = ctx.tier == "quick"
+    for fn in os.listdir(os.path.join(C.VERIF, "replays")) if os.path.isdir(os.path.join(C.VERIF, "replays")) else []:
+        if fn.startswith("C08-") and fn.endswith("-seed%d.json" % ctx.seed):
+            os.unlink(os.path.join(C.VERIF, "replays", fn))       # stale replays of this property and seed
     cases = []
     cdir = os.path.join(C.VERIF, "corpus", "C08")
     if os.path.isdir(cdir):
@@ -596,7 +615,7 @@ def run(ctx):
 
     def runjob(j):
         ci, o = j
-        return DD.run_uftrace(uft, "report", dirs[ci], uft_args(o, dirs), timeout=60)
+        return DD.run_uftrace(uft, "report", dirs[ci], uft_args(o, dirs), timeout=4 if o.get("dup") else 60)
     with ThreadPoolExecutor(max_workers=16) as ex:
         results = list(ex.map(runjob, jobs))
 
@@ -604,6 +623,8 @@ def run(ctx):
     for ci, o in jobs:
         q = model_query(cases, ci, o)
         queries.setdefault(q, len(queries))
+        if o.get("dup"):
+            queries.setdefault("funcpre" + q[4:], len(queries))
     qlist = sorted(queries, key=queries.get)
     try:
         mout = C.run_model("C08", qlist)
@@ -616,7 +637,7 @@ def run(ctx):
 
     st = {"disagree": 0, "monitor": 0, "cells": 0, "exact_cells": 0, "rows": 0, "sorted_checked": 0,
           "oracle_rows": 0, "telescope_checked": 0, "selfdiff_checked": 0, "invalid_key": 0,
-          "diff_order_ambiguous": 0}
+          "diff_order_ambiguous": 0, "dup_jobs": 0, "dup_as_repaired": 0, "dup_as_unrepaired": 0}
     reported = [0]
     samples = []
     distinct = set()
@@ -637,7 +658,7 @@ def run(ctx):
             if o.get("diff") is not None and o["diff"] != ci:
                 obj["diff_case"] = cases[o["diff"]].to_json()
             obj.update(extra)
-            C.violation(ctx, "%s-case%d" % (kind, ci), obj, no_failing_input=nfi)
+            C.violation(ctx, "%s-case%d-%d" % (kind, ci, reported[0]), obj, no_failing_input=nfi)
 
     oracles = {}
     for ji, ((ci, o), (rc, out, err)) in enumerate(zip(jobs, results)):
@@ -647,6 +668,40 @@ def run(ctx):
         ml = mout[queries[q]]
         bycat[case.cat] = bycat.get(case.cat, 0) + 1
         distinct.add((ci, json.dumps(o, sort_keys=True)))
+        if o.get("dup"):
+            st["dup_jobs"] += 1
+            fixed_rows = parse_model_rows(ml)
+            pre_line = mout[queries["funcpre" + q[4:]]]
+            parsed = parse_table(out, kind) if rc == 0 else None
+            if parsed is not None:
+                fields, impl = canon_impl(parsed, kind)
+            else:
+                fields, impl = list(FIELDS), ("hang" if rc == -999 else "rc=%d" % rc)
+            want = canon_rows(case, fixed_rows, fields, kind)
+            pre = "hang" if pre_line == "hang" else canon_rows(case, parse_model_rows(pre_line), fields, kind)
+            if impl == want:
+                st["dup_as_repaired"] += 1
+                continue
+            what = ("`uftrace report -s %s` %s (the key chain asked for is equivalent to the one without the "
+                    "repetition: theorem c08_duplicate_keys_redundant)" % (
+                        o["sort"], "does not terminate" if impl == "hang" else "orders the rows by a different key chain"))
+            if impl == pre:
+                st["dup_as_unrepaired"] += 1
+                kf = [f for f in C.known_findings("C08") if f.get("id") == FINDING_DUP]
+                if kf:
+                    C.known(ctx, kf[0], "%s: report_setup_sort links a repeated sort key twice (list corrupted): %s"
+                            % (FINDING_DUP, what))
+                    continue
+                report("monitor", ci, o, what, {"theorem": "c08_sorted_by_keys", "finding": FINDING_DUP,
+                                                "matches_prefix_model": True,
+                                                "impl_table": impl if impl == "hang" else impl[:12],
+                                                "model_table": want[:12]}, False)
+            else:
+                report("corr", ci, o, "repeated sort key: output matches neither the repaired nor the unrepaired model",
+                       {"impl_table": impl if isinstance(impl, str) else impl[:12], "model_table": want[:12],
+                        "prefix_model_table": pre if isinstance(pre, str) else pre[:12],
+                        "theorem": "correspondence(report_setup_sort)"}, True)
+            continue
         if ml == "invalid-sort-key":
             st["invalid_key"] += 1
             if "invalid sort key" not in err:
@@ -783,6 +838,8 @@ def run(ctx):
         "sorted_tables_checked": st["sorted_checked"], "self_diffs_checked": st["selfdiff_checked"],
         "invalid_sort_key_agreed": st["invalid_key"],
         "diff_tables_compared_as_multisets_because_of_abs_ties": st["diff_order_ambiguous"],
+        "repeated_sort_key_runs": st["dup_jobs"], "repeated_key_like_repaired_model": st["dup_as_repaired"],
+        "repeated_key_like_unrepaired_model_F_C08_DUP": st["dup_as_unrepaired"],
         "model_code_disagreements": st["disagree"], "monitor_failures_on_impl": st["monitor"],
         "exhaustive": False,
         "samples": samples,
@@ -814,7 +871,7 @@ def replay(ctx, path):
     o = dict(r["options"])
     if o.get("diff") is not None:
         o["diff"] = 1 if "diff_case" in r else 0
-    rc, out, err = DD.run_uftrace(uft, "report", dirs[0], uft_args(o, dirs))
+    rc, out, err = DD.run_uftrace(uft, "report", dirs[0], uft_args(o, dirs), timeout=6)
     print("uftrace report", " ".join(uft_args(o, dirs)), "-> rc", rc)
     print(out)
     print(err)
